@@ -13,6 +13,7 @@ Record xcase := {
   c_refuse : list bool;
   c_faults : list (cmd * nat);
   c_fbad : list (cmd * nat);     (* the faults whose error is driver.ErrBadConn *)
+  c_frb : list nat;              (* XA END occurrences that meet a rollback-only branch *)
   c_prog : list op;
   c_jour : list ev;      (* observed *)
   c_out : list ores      (* observed *)
@@ -24,11 +25,12 @@ Definition env_of (c : xcase) : env :=
      e_bid := fun k => nth k (c_bids c) 0;
      e_refuse := fun k => nth k (c_refuse c) false;
      e_fault := fun k n => existsb (fun f => cmd_eqb k (fst f) && Nat.eqb n (snd f)) (c_faults c);
-     e_fbad := fun k n => existsb (fun f => cmd_eqb k (fst f) && Nat.eqb n (snd f)) (c_fbad c) |}.
+     e_fbad := fun k n => existsb (fun f => cmd_eqb k (fst f) && Nat.eqb n (snd f)) (c_fbad c);
+     e_frb := fun n => existsb (Nat.eqb n) (c_frb c) |}.
 
 Definition res_eqb (a b : res) : bool :=
   match a, b with
-  | ROk, ROk | RFault, RFault | RRmfail, RRmfail | RNota, RNota | RDupid, RDupid => true
+  | ROk, ROk | RFault, RFault | RRmfail, RRmfail | RNota, RNota | RDupid, RDupid | RRb, RRb => true
   | _, _ => false
   end.
 
